@@ -1,6 +1,6 @@
 CFG = {
     "jobs": lambda tier: [J("scaled", "c10", imports="Base Stream Inst Run RunHistStack"),
-                          J("scaled", "c10-order")],
+                          J("scaled", "c10-order"), J("prod", "c10-order")],
     "run_modules": ["RunHistStack"],
     "rule": "scaled constants: generated archives (1-4 files, boundary-sized interleaved pieces, 4 layer combinations, levels {0,1,5,9,11}, "
             "1-3 recipients) each with a random history of 4-14 (quick) / 4-30 (thorough) operations: list, hash, open + 0-4 reads of sizes "
@@ -22,4 +22,5 @@ CFG = {
 # round-3 seed C10-m5: order independence in bulk (oracle only)
 CFG["rule"] += ("; c10-order: 1200 (quick) / 6000 (thorough) small archives of 3-5 files written one after the other (sizes 0..2*CHUNK+40, biased to the chunk size "
                 "and to the sizes that put a block edge on a chunk edge), layers ENCRYPT / none / COMPRESS|ENCRYPT; for EVERY ordered pair (x, y) a fresh reader reads x to "
-                "its end, then reads y and asks y's hash: bytes, size and hash must be what was written")
+                "its end, then reads y and asks y's hash: bytes, size and hash must be what was written; production constants (where the last chunk of an archive holds the end of the last files AND the footer): "
+                "encrypted archives of four files of 100, 1000, CHUNK-1200+d, 1000 bytes, d = 0..110 (thorough 220), the long file read first, then each of the four")
